@@ -50,6 +50,21 @@ def s_run(rng, budget_words=2600):
     return j
 
 
+def m_run(rng, reps):
+    """Mixed-size cycle: every thread repeats a short cycle of typed calls `reps` times, so draws of
+    different sizes (and of Lut / LutN) interleave on one thread; oracles group by call site."""
+    P = rng.choice([2, 3, 3, 4, 4, 5, 6])
+    while True:
+        cyc = [(rng.choice("LS"), rng.choice([0, 1, 2, 3, 4, 5, 0, 1, 2, 3, 4, 5, 6, 7, 8])) for _ in range(P)]
+        if sum(nwords(n) for _, n in cyc) <= 8 and len(set(cyc)) > 1:
+            break
+    kmax = max(1, 8 // P)
+    K = rng.randint(1, min(3, kmax))
+    main = rng.randint(0, 1) if K > 1 or P <= 4 else 0
+    return _job("M", rng, K=K - main if K > 1 else K, main=main if K > 1 else 0, D=reps, sizes=sorted(set(n for _, n in cyc)), cycle=cyc, types="both",
+                preempt=rng.choice(PREEMPT), **{"yield": rng.randint(0, 1)})
+
+
 def make_plan(seed, tier):
     rng = random.Random(seed)
     jobs = []
@@ -68,6 +83,12 @@ def make_plan(seed, tier):
         # P16 — 16 threads x 16 draws x both types on multi-word sizes: 256 draws per type when pooled
         for n in (7, 8, 9):
             jobs.append(_job("P16", rng, K=16, D=16, sizes=[n], types="both", preempt=rng.choice(PREEMPT), **{"yield": rng.randint(0, 1)}))
+        # H — long history: 2 threads walk sizes 0..8 in different orders, 256 draws per size and type
+        # (4608 random() calls per thread), so call-count- and order-dependent state is exercised
+        jobs.append(_job("H", rng, K=1, main=1, D=256, sizes=list(range(9)), types="both", preempt=rng.choice(PREEMPT), **{"yield": rng.randint(0, 1)}))
+        # M — mixed-size cycles, 1024 repetitions: call-context groups up to every 4th repetition
+        for _ in range(8):
+            jobs.append(m_run(rng, 1024))
         n_s = 64
     else:
         for typ, n in combos:
@@ -78,6 +99,13 @@ def make_plan(seed, tier):
                 jobs.append(_job("L16b", rng, K=16, D=32, sizes=[n], types=typ, preempt=rng.choice(PREEMPT), **{"yield": rng.randint(0, 1)}))
         for n in (7, 8, 9, 10):
             jobs.append(_job("P16", rng, K=16, D=16, sizes=[n], types="both", preempt=rng.choice(PREEMPT), **{"yield": rng.randint(0, 1)}))
+        jobs.append(_job("H", rng, K=1, main=1, D=256, sizes=list(range(13)), types="both", preempt=rng.choice(PREEMPT), **{"yield": rng.randint(0, 1)}))
+        for _ in range(6):
+            sz = sorted(rng.sample(range(11), rng.randint(5, 9)))
+            jobs.append(_job("H", rng, K=rng.choice([2, 3, 4]), main=rng.randint(0, 1), D=256, sizes=sz, types=rng.choice(["lut", "static", "both"]),
+                             preempt=rng.choice(PREEMPT), **{"yield": rng.randint(0, 1)}))
+        for _ in range(48):
+            jobs.append(m_run(rng, 2048))
         n_s = 768
     for _ in range(n_s):
         jobs.append(s_run(rng))
